@@ -193,6 +193,8 @@ def oracle_family(d):
         p.append("C10: member calls not applied in that member's issue order / lost")
     if not d.get("note_order_ok", True):
         p.append("C10/C02: calls issued one after another through one member handle were not applied in that order: %s (expected 8 notes, then mark)" % d.get("note_log"))
+    if d.get("abandon_tested") and not d.get("abandoned_applied", True):
+        p.append("C10/C03: a mutating call accepted by member R while member W held the lock was never applied after its caller gave up waiting (total afterwards %s)" % d.get("total_after_abandon"))
     if d["ctor_runs"] != 1:
         p.append("C10: %d constructor runs for one family" % d["ctor_runs"])
     if d["final"] != 100:
@@ -203,4 +205,19 @@ def oracle_family(d):
             "could not be in progress simultaneously" if want == "ok" else "overlapped", d["lock"], d["rendezvous"]))
     if d.get("panicked") or d.get("hung"):
         p.append("C10: panicked=%s hung=%s" % (d.get("panicked"), d.get("hung")))
+    return p
+
+
+def oracle_slowreply(d):
+    """C01 / C03: a caller whose reply takes long simply waits; it gets the value its call produced and the actor lives on"""
+    if "error" in d:
+        return ["harness: " + d["error"]]
+    p = []
+    want_log = [l for l in d.get("log", []) if l.startswith("add:0:0:")]
+    if d["outcome"] != "returned" or d.get("value") is None:
+        p.append("C01/C03: a value-returning call whose reply took %d ms ended as %s (%s) although the actor was alive and executed it: %s" % (d["ms"], d["outcome"], d.get("msg"), want_log))
+    elif not want_log or want_log[0].split(":")[-1] != str(d["value"]):
+        p.append("C03: returned value %s is not the one the call produced (%s)" % (d["value"], want_log))
+    if d.get("get_after") != "returned":
+        p.append("C01: the actor is no longer usable after a slow reply: get() -> %s (log %s, drops %s)" % (d.get("get_after"), d.get("log"), d.get("drops")))
     return p
